@@ -25,7 +25,7 @@ def main():
             else:
                 unit = m.group(3)
             continue
-        m = re.match(r"test (\S+) \.\.\. ok", line)
+        m = re.match(r"test (\S+)(?: - should panic)? \.\.\. ok", line)
         if m and pkg:
             name = m.group(1)
             passed.add("%s::%s" % (pkg, name) if unit is None else "%s::%s::%s" % (pkg, unit, name))
